@@ -75,6 +75,8 @@ TYPES = [
     ('FooRec', lambda: t_typedef('FooRec'), ('rec', 'byvalue')),
     ('GError**', lambda: _p(_p(t_typedef('GError'))), ('ptr', 'pp', 'gerror')),
     ('FooBarThing*', lambda: _p(t_typedef('FooBarThing')), ('ptr', 'rec', 'foreign')),
+    ('FooHandler', lambda: t_typedef('FooHandler'), ('ptr', 'cb', 'aliascb')),       # typedef FooCb FooHandler;
+    ('FooVaCb', lambda: t_typedef('FooVaCb'), ('ptr', 'cb', 'bad')),                 # callback type taking a va_list
 ]
 TYPE_LABELS = [t[0] for t in TYPES]
 N_TYPES = len(TYPES)
@@ -170,6 +172,10 @@ def fixed_decls(vfunc_slot=None, rec_extra_fields=(), with_class=True, typedef_f
             cls_fields.append(vfunc_slot)
         out.append(s_struct('_FooObjClass', cls_fields))
         out.append(s_function('foo_obj_get_type', t_typedef('GType'), []))
+    out.append(s_typedef('FooHandler', t_typedef('FooCb')))
+    # declared after FooObj: a method using it is walked before this type is found not introspectable
+    out.append(s_typedef('FooVaCb', t_ptr(t_func(t_void(), [s_param('format', t_ptr(t_basic('char', CONST))),
+                                                            s_param('args', t_typedef('va_list'))]))))
     return out
 
 
